@@ -64,6 +64,8 @@ func (c *Controller) scaleUpCloudProviderNodeGroup(opts scaleOpts) (int, error) 
 
 	nodegroupName := opts.nodeGroup.Opts.Name
 	nodesToAdd := c.calculateNodesToAdd(int64(opts.nodesDelta), cloudProviderNodeGroup.TargetSize(), cloudProviderNodeGroup.MaxSize())
+	// max_nodes is a hard limit of its own and may be lower than the cloud provider's maximum
+	nodesToAdd = c.calculateNodesToAdd(nodesToAdd, cloudProviderNodeGroup.TargetSize(), int64(opts.nodeGroup.Opts.MaxNodes))
 	if nodesToAdd <= 0 {
 		err := fmt.Errorf(
 			"refusing to scaleup up beyond the maximum size of the autoscaling group (TargetSize: %v; MaxNodes: %v). Taking no action",
